@@ -15,7 +15,7 @@ def register(K):
     K.trusted.append(("analysis.AnalyzerMeta.default_instance", "metaclass property abstracted as a class-object field holding one Analyzer"))
 
     # every analysis: a generator of findings; a finding is an AnalysisResult whose severity is never LIKELY_SAFE
-    ERR = ["ValueError", "IndexError", "KeyError", "NotImplementedError", "TypeError", "AttributeError"]
+    ERR = ["ValueError", "IndexError", "KeyError", "NotImplementedError", "TypeError", "AttributeError", "OverflowError"]
     PK = ["@list.items:nodeowned", "@ast.lineno", "@ast.col_offset", "@iterator.pos"]
     # every analysis: a generator of findings; a finding is an AnalysisResult whose severity is never LIKELY_SAFE.  It may read the derived
     # views of the pickle (building the caches), writes the de-dup set of the context, and nothing else; it raises only if decompilation does
@@ -76,4 +76,4 @@ def register(K):
                ensures_raise={"*": ["inv(pickled)", "pickled._opcodes == old(pickled._opcodes)"]},
                ensures=["result.pickled is pickled", "inv(pickled)", "pickled._opcodes == old(pickled._opcodes)",
                         "forall('j', len(result.results), 'doc_rank(result.results[j].severity) >= 1')"])
-    K.contract("analysis.is_likely_safe", params="filepath: val", returns="bool", may_raise=["OSError", "Exception"], modifies=PK, ensures=[])
+    K.contract("analysis.is_likely_safe", params="filepath: val", returns="bool", may_raise=["OSError", "Exception"], modifies=PK + ["@stream.position"], ensures=[])
